@@ -72,4 +72,49 @@ def stray_eoo(sid, args):
     return _value_has_expl_leaf(e.t, e.mk(**slots))
 
 
-HELPERS = {"stray_eoo": stray_eoo, "has_expl_leaf": has_expl_leaf, "has_kind": has_kind}
+def _encodes_empty(t, av):
+    from vfw.schema import norm
+
+    if t.kind in ("SEQOF", "SETOF"):
+        return len(av) == 0
+    if t.kind in ("SEQ", "SET"):
+        return len(norm(t, av)) == 0
+    return False
+
+
+def _value_has_empty_optional(t, av):
+    k = t.kind
+    if k in ("SEQ", "SET"):
+        for (name, ct, mode, dflt) in t.comps:
+            if name not in av:
+                continue
+            if mode == "opt" and _encodes_empty(ct, av[name]):
+                return True
+            if _value_has_empty_optional(ct, av[name]):
+                return True
+        return False
+    if k in ("SEQOF", "SETOF"):
+        for x in av:
+            if _value_has_empty_optional(t.elem, x):
+                return True
+        return False
+    if k == "CHOICE":
+        name, inner = av
+        ct = [c for c in t.comps if c[0] == name][0][1]
+        return _value_has_empty_optional(ct, inner)
+    return False
+
+
+def empty_optional(sid, args):
+    """The value built from `args` for schema `sid` holds an OPTIONAL SEQUENCE/SET/SEQUENCE OF/SET OF member that is
+    present but has empty contents - the shape hit by finding F-empty-optional-omitted in CER/DER."""
+    from vfw.catalogue import by_id
+
+    e = by_id(sid)
+    if not any(c[2] == "opt" and c[1].kind in ("SEQ", "SET", "SEQOF", "SETOF") for t in _walk(e.t) for c in t.comps):
+        return False
+    slots = dict((k, v) for k, v in args.items() if k in e.params)
+    return _value_has_empty_optional(e.t, e.mk(**slots))
+
+
+HELPERS = {"empty_optional": empty_optional, "stray_eoo": stray_eoo, "has_expl_leaf": has_expl_leaf, "has_kind": has_kind}
